@@ -4,9 +4,9 @@ cd "$(dirname "$0")"
 (cd harness && cargo build --offline >/dev/null 2>&1 && cargo build --offline --release >/dev/null 2>&1)
 for p in "$@"; do
   s=$(date +%s)
-  ./check $p --tier thorough > work_thorough_$p.log 2>&1
+  ./check $p --tier thorough > work/thorough_$p.log 2>&1
   rc=$?
   e=$(date +%s)
-  echo "$p rc=$rc wall=$((e-s))s $(grep -c '^VIOLATION' work_thorough_$p.log) violations"
-  grep -E "^VIOLATION|TOOL-ERROR|KNOWN-FINDING" work_thorough_$p.log | head -5 | cut -c1-300
+  echo "$p rc=$rc wall=$((e-s))s $(grep -c '^VIOLATION' work/thorough_$p.log) violations"
+  grep -E "^VIOLATION|TOOL-ERROR|KNOWN-FINDING" work/thorough_$p.log | head -5 | cut -c1-300
 done
